@@ -29,11 +29,9 @@ Definition write_panics (pairs : list (bytes * bytes)) : bool := existsb pair_pa
 
 Definition mcase_model_ok (c : mcase) : bool := Bool.eqb (write_panics (mc_prop_pairs c)) (mc_panic c).
 
-(* domain of the oracle: the structural part, and every property-based update inside the domains of
-   the generatePropertyPatches theorems (d_total: no panic, d_sound: success means the right values) *)
-Definition mcase_in_domain (c : mcase) : bool :=
-  mc_claimed c &&
-  forallb (fun p => d_total (fst p) (snd p) && d_sound (fst p)) (mc_prop_pairs c).
+(* domain of the oracle: the structural part computed by the harness (generatePropertyPatches is total
+   and sound on every input since the fix, so no further restriction comes from it) *)
+Definition mcase_in_domain (c : mcase) : bool := mc_claimed c.
 
 (* zero updates: claimed for every file (no domain) *)
 Definition mcase_spec_ok (c : mcase) : bool :=
